@@ -498,6 +498,8 @@ func c07Run(w *core.W) {
 			}
 		}
 	}
+	// the same ancestor named twice: its properties arrive twice (refused unless it has none)
+	allOfRoot = append(allOfRoot, []string{"@a", "@a"}, []string{"@c", "@c"}, []string{"@b", "@c", "@b"})
 	apRoot := []string{"", "true", "false", `"string"`, `"@c"`}
 	if !w.Thorough() {
 		apRoot = []string{"", "true", "false"}
@@ -512,7 +514,7 @@ func c07Run(w *core.W) {
 	}
 	roots = append(roots, &c07Type{Shape: "scalar"})
 	for _, o := range [][]c07Key{nil, {k("k1")}, {k("k2")}, {ko("k2"), k("a1")}} {
-		for _, al := range [][]string{nil, {"@b"}, {"@c"}, {"@b", "@c"}, {"@a"}, {"@x"}, {"@root"}} {
+		for _, al := range [][]string{nil, {"@b"}, {"@c"}, {"@b", "@c"}, {"@a"}, {"@x"}, {"@root"}, {"@c", "@c"}} {
 			for _, ap := range []string{"", "true", "false"} {
 				as = append(as, obj(o, al, ap))
 			}
